@@ -131,7 +131,7 @@ def build(model, nports, streams, gaps, ev, stall, latency, patterns, dws=None):
   dws = dws or [32] * nports
   types = {dw: mk_mem_msg(8, AW, dw) for dw in set(dws)}
   ptypes = [types[dw] for dw in dws]                      # per-port (request, response) classes: ports may differ in data width
-  msgs = [[ptypes[p][0](r["type"], i & 0xFF, r["addr"], r["len"], r["data"]) for i, r in enumerate(st)] for p, st in enumerate(streams)]
+  msgs = [[ptypes[p][0](r["type"], r.get("opq", i & 0xFF), r["addr"], r["len"], r["data"]) for i, r in enumerate(st)] for p, st in enumerate(streams)]
   if model == "cl":
     from pymtl3.stdlib.mem.MagicMemoryCL import MagicMemoryCL
     SrcCL, SinkCL = harness.mk_cl()
@@ -365,14 +365,14 @@ def check_history(sh, cfg, streams, ev, cyc, bound, err, image):
         v = ref.read(addr, nb)
         if v != e[5]:
           V("backing-store-read-differs-from-replay", op=list(e), expected=v); bad = True
-        exp_resp[cand].append((T_READ, idx & 0xFF, r["len"], v))
+        exp_resp[cand].append((T_READ, r.get("opq", idx & 0xFF), r["len"], v))
       elif kind == "write":
         ref.write(addr, nb, e[4])
-        exp_resp[cand].append((T_WRITE, idx & 0xFF, None, None))
+        exp_resp[cand].append((T_WRITE, r.get("opq", idx & 0xFF), None, None))
       else:
         sh.count("amo_ops")
         old = ref.amo(e[6], addr, nb, e[4])
-        exp_resp[cand].append((r["type"], idx & 0xFF, r["len"], old))
+        exp_resp[cand].append((r["type"], r.get("opq", idx & 0xFF), r["len"], old))
     else:
       _, p, m = e
       got[p].append((int(m.type_), int(m.opaque), int(m.len), int(m.data), int(m.test)))
@@ -445,6 +445,13 @@ def run_config(sh, rng, case, probe=None):
   if probe is None and rng.random() < 0.4:
     dws = [rng.choice([16, 32, 64]) for _ in range(nports)]          # ports of different data widths on one memory
   streams = [gen_stream(rng, nops, nwords, amo_p, subword_amo, dws[p]) for p in range(nports)]
+  if probe is None and rng.random() < 0.5:
+    # a master that sends the VERY SAME message again (polling a flag with a constant opaque, two identical AMOs in a row): every
+    # field equal to the previous request of the port, the opaque included
+    for st in streams:
+      for i in range(1, len(st)):
+        if rng.random() < 0.15:
+          st[i] = dict(st[i - 1], opq=st[i - 1].get("opq", (i - 1) & 0xFF)); sh.count("requests_identical_to_the_previous_one")
   cfg = {"model": model, "dws": dws, "nports": nports, "latency": latency, "stall": stall, "nwords": nwords, "bp": bp,
          "patterns": [pat() for _ in range(nports)], "gaps": [gen_gaps(rng, nops) for _ in range(nports)],
          "bp_factor": {"none": 1, "half": 3, "bursty": 4, "rare": 10}[bp], "subword_amo": subword_amo, "case": case, "mem_nbytes": MEMSZ, "base": BASE, "addr_bits": AW}
